@@ -79,8 +79,19 @@ class _FieldOfDressed:
             # Copy the pure python data (not the _xobject and the dressed
             # nested parts, which belong to the newly made copy)
             for kk, vv in value.__dict__.items():
-                if kk not in dressed_new.__dict__:
-                    dressed_new.__dict__[kk] = vv
+                if kk in dressed_new.__dict__:
+                    continue
+                if kk.startswith("_dressed_") and hasattr(vv, "_xobject"):
+                    # dressed referent: keep it only if the stored copy
+                    # refers to that very object (same buffer)
+                    xref = getattr(dressed_new._xobject, kk[9:], None)
+                    if (
+                        xref is None
+                        or xref._buffer is not vv._buffer
+                        or xref._offset != vv._offset
+                    ):
+                        continue
+                dressed_new.__dict__[kk] = vv
         else:
             self.content = None
             setattr(container._xobject, self.name, value)
